@@ -361,6 +361,120 @@ fn exchange(root: &Arc<GameState>, sels: &[Vec<u16>], rounds: usize, concurrent:
     hs.into_iter().map(|h| h.join().unwrap_or((0xdead, 0))).collect()
 }
 
+// ---------------------------------------------------------------------------------------------
+// Sibling scenario: states of one and the same turn (steps 1..3 below one turn start, so they share
+// the turn's history) are queried over and over, each by its own thread, all at the same time - what a
+// parallel search does with the children of a node. The states are chosen so that the repetition rules
+// treat them differently where possible (for some a pass is withheld, for others it is not).
+// ---------------------------------------------------------------------------------------------
+
+/// Extends the root by a few turns that prefer taking back the previous own turn, so that positions
+/// recur; returns the actions made (empty if the game ends on the way).
+fn shuffle_on(root: &GameState, sels: &[u16], turns: usize) -> Vec<Action> {
+    let mut out = vec![];
+    let mut cur = root.clone();
+    let mut prevs: [Vec<Action>; 2] = [vec![], vec![]];
+    let mut pos = 0usize;
+    let mut t = Transcript::default();
+    for _ in 0..turns {
+        let side = cur.is_p1_turn_to_move() as usize;
+        let mut pv = std::mem::take(&mut prevs[side]);
+        match play_turn(&cur, sels, &mut pos, &mut pv, &mut t) {
+            Some(n) => {
+                out.extend(pv.iter().copied());
+                prevs[side] = pv;
+                cur = n;
+            }
+            None => return vec![],
+        }
+    }
+    if cur.is_terminal().is_some() {
+        return vec![];
+    }
+    out
+}
+
+/// Paths (1..=2 steps) from a turn start to states of the same turn, those for which the repetition
+/// rules withhold something first, alternating with those for which they do not.
+fn sibling_paths(root: &GameState, max: usize) -> Vec<Vec<Action>> {
+    if !root.is_play_phase() || root.is_terminal().is_some() || root.current_step() != 0 {
+        return vec![];
+    }
+    let side = root.is_p1_turn_to_move();
+    let mut special: Vec<Vec<Action>> = vec![];
+    let mut plain: Vec<Vec<Action>> = vec![];
+    let mut consider = |g: &GameState, path: Vec<Action>| {
+        if g.valid_actions().len() != g.valid_actions_no_rep().len() || g.can_pass(true) != g.can_pass(false) {
+            special.push(path);
+        } else {
+            plain.push(path);
+        }
+    };
+    for a in root.valid_actions_no_rep().iter().take(24) {
+        let c = root.take_action(a);
+        if c.is_p1_turn_to_move() != side || !c.is_play_phase() {
+            continue;
+        }
+        consider(&c, vec![*a]);
+        for b in c.valid_actions_no_rep().iter().take(6) {
+            let d = c.take_action(b);
+            if d.is_p1_turn_to_move() != side {
+                continue;
+            }
+            consider(&d, vec![*a, *b]);
+        }
+    }
+    let mut out = vec![];
+    let (mut i, mut j) = (0, 0);
+    while out.len() < max && (i < special.len() || j < plain.len()) {
+        if i < special.len() {
+            out.push(special[i].clone());
+            i += 1;
+        }
+        if out.len() < max && j < plain.len() {
+            out.push(plain[j].clone());
+            j += 1;
+        }
+    }
+    out
+}
+
+fn siblings_run(root: &GameState, paths: &[Vec<Action>], reps: usize, concurrent: bool) -> Vec<(u64, u64)> {
+    // the states are built without being queried: the first query of each happens inside the burst
+    let states: Vec<GameState> = paths
+        .iter()
+        .map(|p| {
+            let mut g = root.clone();
+            for a in p {
+                g = g.take_action(a);
+            }
+            g
+        })
+        .collect();
+    let work = move |g: &GameState| {
+        let mut t = Transcript::default();
+        for _ in 0..reps {
+            observe(g, &mut t);
+        }
+        (t.h, t.items)
+    };
+    if !concurrent {
+        return states.iter().map(|g| work(g)).collect();
+    }
+    let barrier = Arc::new(Barrier::new(states.len()));
+    let hs: Vec<_> = states
+        .into_iter()
+        .map(|g| {
+            let barrier = barrier.clone();
+            std::thread::spawn(move || {
+                barrier.wait();
+                work(&g)
+            })
+        })
+        .collect();
+    hs.into_iter().map(|h| h.join().unwrap_or((0xdead, 0))).collect()
+}
+
 fn check_case(c: &ConcCase, st: &mut Stats) -> Check {
     let actions = match root_actions(c) {
         Some(a) => a,
@@ -369,7 +483,21 @@ fn check_case(c: &ConcCase, st: &mut Stats) -> Check {
             return Ok(());
         }
     };
-    let mk = || fresh_root(&c.game.start, &actions).map(Arc::new);
+    check_parts(&c.game.start, &actions, &c.progs, c.game.aux, st)
+}
+
+/// Everything that is done with one case (also what a replay file is run through).
+fn check_parts(start: &gen::Start, actions: &[Action], progs: &[Prog], aux: u64, st: &mut Stats) -> Check {
+    struct G<'a> {
+        start: &'a gen::Start,
+        aux: u64,
+    }
+    struct C<'a> {
+        game: G<'a>,
+        progs: &'a [Prog],
+    }
+    let c = &C { game: G { start, aux }, progs };
+    let mk = || fresh_root(c.game.start, actions).map(Arc::new);
     let root = match mk() {
         Some(r) => r,
         None => {
@@ -382,10 +510,10 @@ fn check_case(c: &ConcCase, st: &mut Stats) -> Check {
     let mut cons = vec![];
     for _ in 0..5 {
         let r = mk().unwrap();
-        cons.push(guard(|| execute(&r, &c.progs, true)).map_err(|p| Fail::new("C18:concurrent_panic", p))?);
+        cons.push(guard(|| execute(&r, c.progs, true)).map_err(|p| Fail::new("C18:concurrent_panic", p))?);
     }
     let seq_root = mk().unwrap();
-    let seq = guard(|| execute(&seq_root, &c.progs, false)).map_err(|p| Fail::new("C18:sequential_panic", p))?;
+    let seq = guard(|| execute(&seq_root, c.progs, false)).map_err(|p| Fail::new("C18:sequential_panic", p))?;
     for con in cons.iter() {
         for (i, (a, b)) in seq.iter().zip(con.iter()).enumerate() {
             ensure!(a == b, "C18:transcript", "thread {} of {}: concurrent transcript (hash {:#x}, {} items) differs from the sequential run (hash {:#x}, {} items)", i, seq.len(), b.0, b.1, a.0, a.1);
@@ -414,6 +542,45 @@ fn check_case(c: &ConcCase, st: &mut Stats) -> Check {
                 ensure!(a == b, "C18:transcript", "exchange scenario, thread {} of {}: playing different lines from one root on several threads and looking at each other's states gave a transcript (hash {:#x}, {} items) that differs from the same scenario on one thread (hash {:#x}, {} items)", i, xs.len(), b.0, b.1, a.0, a.1);
             }
             st.bump("exchange_scenarios");
+        }
+    }
+    // sibling scenario below the root after some shuffling turns
+    if root.is_play_phase() && root.is_terminal().is_none() {
+        let sels: Vec<u16> = c.progs.iter().flat_map(|p| p.phase1.iter().chain(p.phase2.iter())).flat_map(|o| if let Op::Walk(w) = o { w.clone() } else { vec![] }).chain([c.game.aux as u16, 40503]).collect();
+        let scratch = mk().unwrap();
+        let more = guard(|| shuffle_on(&scratch, &sels, 9)).unwrap_or_default();
+        let build = |fresh: Arc<GameState>| -> Option<GameState> {
+            let mut g = (*fresh).clone();
+            for a in more.iter() {
+                g = g.take_action(a);
+            }
+            Some(g)
+        };
+        let sroot = build(mk().unwrap()).unwrap();
+        let paths = guard(|| sibling_paths(&sroot, 8)).unwrap_or_default();
+        if paths.len() >= 2 {
+            for round in 0..2 {
+                let r1 = build(mk().unwrap()).unwrap();
+                let con = guard(|| siblings_run(&r1, &paths, 150, true)).map_err(|p| Fail::new("C18:concurrent_panic", p))?;
+                let r2 = build(mk().unwrap()).unwrap();
+                let seq = guard(|| siblings_run(&r2, &paths, 150, false)).map_err(|p| Fail::new("C18:sequential_panic", p))?;
+                for (i, (a, b)) in seq.iter().zip(con.iter()).enumerate() {
+                    ensure!(a == b, "C18:transcript", "sibling scenario (round {}), state {} of {}: states of one turn queried repeatedly, each by its own thread at the same time, gave a transcript (hash {:#x}, {} items) that differs from the same queries on one thread (hash {:#x}, {} items); siblings: {}", round, i, seq.len(), b.0, b.1, a.0, a.1, paths.iter().map(|p| actions_text(p)).collect::<Vec<_>>().join(" | "));
+                }
+            }
+            st.bump("sibling_scenarios");
+            let sp = guard(|| {
+                paths.iter().filter(|p| {
+                    let mut g = sroot.clone();
+                    for a in p.iter() {
+                        g = g.take_action(a);
+                    }
+                    g.valid_actions().len() != g.valid_actions_no_rep().len() || g.can_pass(true) != g.can_pass(false)
+                }).count()
+            }).unwrap_or(0);
+            if sp > 0 && sp < paths.len() {
+                st.bump("sibling_scenarios_with_and_without_withheld_actions");
+            }
         }
     }
     let expanders = c.progs.iter().filter(|p| matches!(p.phase1.first(), Some(Op::Expand(_)) | Some(Op::Query) | Some(Op::CloneDrop(..)) | Some(Op::Walk(_)))).count();
@@ -453,6 +620,7 @@ fn case_json(c: &ConcCase) -> Value {
         "start": drive::start_json(&c.game.start),
         "actions": actions.iter().map(action_text).collect::<Vec<_>>(),
         "programs": c.progs.iter().map(prog_json).collect::<Vec<_>>(),
+        "aux": c.game.aux,
     })
 }
 fn op_json(o: &Op) -> Value {
@@ -503,11 +671,11 @@ fn replay(path: &str) -> i32 {
         })
         .collect();
     // a schedule-dependent failure may need several attempts; every execution gets a fresh root
-    for _ in 0..300 {
-        let con = execute(&Arc::new(fresh_root(&start, &actions).expect("root")), &progs, true);
-        let seq = execute(&Arc::new(fresh_root(&start, &actions).expect("root")), &progs, false);
-        if seq != con {
-            println!("C18:transcript: concurrent transcripts differ from the sequential run");
+    let aux = case["aux"].as_u64().unwrap_or(0);
+    for _ in 0..60 {
+        let mut st = Stats::default();
+        if let Err(f) = check_parts(&start, &actions, &progs, aux, &mut st) {
+            println!("{}: {}", f.clause, f.detail);
             return 1;
         }
     }
